@@ -150,7 +150,7 @@ var c08Main = []database.Command{
 func TestC08_Save(t *testing.T) {
 	needWtf(t)
 	rec := stat.For("C08")
-	rec.Rule("histories of 1-6 `wtf save` / `wtf save-pipeline` runs of the built binary in an isolated HOME, starting from a missing, empty or populated notebook; command/description/category strings from an argv pool (YAML-significant text, multi-line text with leading/trailing blank lines and indentation, control characters, invalid UTF-8, empty strings, Unicode), repeated command strings (replace path); flags first, then --, then the positionals. Oracle: after every reported success the notebook reloaded with the real loader equals an in-memory model list field by field (replace-by-command-string, original positions kept); exit status 0/1 and no panic on every run; LoadDatabaseWithPersonal = main entries then notebook entries; a saved entry is found by `wtf search` for one of its words. Non-trivial = >=2 saves with a hostile string class or a replace.")
+	rec.Rule("histories of 1-6 `wtf save` / `wtf save-pipeline` runs of the built binary in an isolated HOME, starting from a missing, empty or populated notebook; command/description/category strings from an argv pool (YAML-significant text, multi-line text with leading/trailing blank lines and indentation, control characters, invalid UTF-8, empty strings, Unicode), repeated command strings (replace path), command strings copied from a main-database entry (the user's own version of a built-in command); flags first, then --, then the positionals. Oracle: after every reported success the notebook reloaded with the real loader equals an in-memory model list field by field (replace-by-command-string, original positions kept); exit status 0/1 and no panic on every run; LoadDatabaseWithPersonal = main entries then notebook entries; a saved entry is found by `wtf search` for one of its words. Non-trivial = >=2 saves with a hostile string class or a replace.")
 	rec.RequireShare("multiline", 0.15)
 	rec.RequireShare("replace", 0.15)
 	rapid.Check(t, func(t *rapid.T) {
@@ -172,16 +172,21 @@ func TestC08_Save(t *testing.T) {
 		}
 		n := rapid.IntRange(1, 6).Draw(t, "saves")
 		hostile, replaced, multiline := false, false, false
+		mainCopy := false
 		var steps []string
 		for s := 0; s < n; s++ {
 			var cmdStr, ccls string
 			if len(model) > 0 && rapid.IntRange(0, 3).Draw(t, "reuse") == 0 {
 				cmdStr, ccls = model[rapid.IntRange(0, len(model)-1).Draw(t, "which")].Command, "reused"
+			} else if rapid.IntRange(0, 5).Draw(t, "main-copy") == 0 {
+				// the user's own version of a built-in command: same command string as a main entry
+				cmdStr, ccls = c08Main[rapid.IntRange(0, len(c08Main)-1).Draw(t, "which-main")].Command, "main-copy"
+				mainCopy = true
 			} else {
 				cmdStr, ccls = argvString(t, "command")
 			}
 			desc, dcls := argvString(t, "description")
-			if ccls != "plain" && ccls != "reused" || dcls != "plain" {
+			if ccls != "plain" && ccls != "reused" && ccls != "main-copy" || dcls != "plain" {
 				hostile = true
 			}
 			if ccls == "multiline" || dcls == "multiline" {
@@ -348,6 +353,9 @@ func TestC08_Save(t *testing.T) {
 		}
 		if found {
 			labels = append(labels, "findability-checked")
+		}
+		if mainCopy {
+			labels = append(labels, "same-command-as-main-entry")
 		}
 		rec.Case((n >= 2 && hostile) || replaced, map[string]any{"start": start, "steps": steps, "entries": len(model)}, labels...)
 	})
